@@ -195,12 +195,30 @@ class DULServiceProvider(threading.Thread):
                     evt = self.event.popleft()
                 except IndexError:
                     continue
-                self.state_machine.action(evt)
+                try:
+                    self.state_machine.action(evt)
+                except socket.error:
+                    # The transport connection failed while the action was using it (e.g. the peer
+                    # has reset the connection and this shows up on a write): the connection is gone
+                    self._transport_lost()
         except Exception:
             self.to_service_user.put(pdu.AAbortPDU(source=0, reason_diag=0))
             raise
         finally:
             self._is_killed.set()
+
+    def _transport_lost(self):
+        if self.dul_socket:
+            try:
+                self.dul_socket.close()
+            except socket.error:
+                pass
+            self.dul_socket = None
+        if self.state_machine.current_state == fsm.States.STA_1:
+            # the transport connection could not even be opened
+            self.to_service_user.put(pdu.AAbortPDU(source=0, reason_diag=0))
+        else:
+            self.event.append(fsm.Events.EVT_17)
 
     def _check_network(self):
         if not self.dul_socket:
